@@ -1,5 +1,4 @@
 package main
 
 
-func genResolver(c *ctx, s *schema)                    {}
 func genFormatter(c *ctx, s *schema)                   {}
